@@ -51,7 +51,7 @@ pub struct Renderer {
     pub in_macro_body: bool,
 }
 
-const HOSTILE_COMMENTS: &[&str] = &["c", "x ; y", "say \"hi\"", "it's", "a // b", "*/ not really", "@0 @1", "1, 2, 3", ".endif", "nop", "r16: .db 1"];
+const HOSTILE_COMMENTS: &[&str] = &["c", "x ; y", "say \"hi\"", "it's", "a // b", "*/ not really", "@0 @1", "1, 2, 3", ".endif", "nop", "r16: .db 1", "gr\u{f6}\u{df}e \u{b5}s", "2 * n + 1", "**", ".endm .macro"];
 
 impl Renderer {
     pub fn new(style: Style) -> Self {
@@ -331,7 +331,11 @@ impl Renderer {
                 }
                 _ => {
                     let i = (self.pick(D_BLANK) % HOSTILE_COMMENTS.len() as u64) as usize;
-                    self.out.push_str(&format!("  // {}", HOSTILE_COMMENTS[i]));
+                    if i % 3 == 0 && !HOSTILE_COMMENTS[i].contains("*/") {
+                        self.out.push_str(&format!("/* {} */", HOSTILE_COMMENTS[i]));
+                    } else {
+                        self.out.push_str(&format!("  // {}", HOSTILE_COMMENTS[i]));
+                    }
                 }
             }
             self.eol();
